@@ -401,6 +401,100 @@ def lean_strs(xs):
     return "[" + ", ".join(lean_str(x) for x in xs) + "]"
 
 
+def checked_write_calls(body, where):
+    """Every `write_all(…)` call of a Write-based serialisation function, in source order, as the text
+    of its argument.  Each call must hand the writer's `io::Error` to the caller with `?` (it becomes
+    `Error::Io` through `From<io::Error>`): the model threads a writer that may refuse any call and
+    answers `.err .io` there.  `.unwrap()` / `.expect(…)` on the result is the defect repaired in
+    b398cef (a failing writer made the call panic) coming back; anything else is a shape the model
+    does not transcribe."""
+    calls = []
+    for m in re.finditer(r"\bwrite_all\s*\(", body):
+        i = m.end() - 1
+        depth = 0
+        j = i
+        n = len(body)
+        while j < n:
+            c = body[j]
+            if c == '"':
+                k = j + 1
+                while k < n and body[k] != '"':
+                    k += 2 if body[k] == "\\" else 1
+                j = k + 1
+                continue
+            if c == "(":
+                depth += 1
+            elif c == ")":
+                depth -= 1
+                if depth == 0:
+                    break
+            j += 1
+        else:
+            raise ExtractError(f"{where}: unbalanced `write_all(`")
+        arg = squeeze_ws(body[i + 1:j])
+        tail = body[j + 1:].lstrip()
+        if re.match(r"\.\s*(unwrap|expect|unwrap_unchecked)\s*\(", tail):
+            raise ExtractError(
+                f"{where}: `write_all({arg})` is followed by `{tail[:tail.find('(')].strip()}(…)`: a writer that fails makes the call "
+                "PANIC instead of returning Err(Error::Io(..)) — the defect repaired in b398cef (C16/C19 "
+                "`write-panics-when-the-writer-fails`) is back; the model answers `.err .io` at a refused write")
+        if not re.match(r"\?\s*;", tail):
+            raise ExtractError(
+                f"{where}: `write_all({arg})` is not of the form `w.write_all(…)?;` (found `{tail[:24]!r}` after it): "
+                "the model propagates the writer's error at every call, in call order")
+        calls.append(arg)
+    return calls
+
+
+def squeeze_ws(x):
+    """Remove white space outside string literals."""
+    out = []
+    i = 0
+    n = len(x)
+    while i < n:
+        c = x[i]
+        if c == '"':
+            j = i + 1
+            while j < n and x[j] != '"':
+                j += 2 if x[j] == "\\" else 1
+            out.append(x[i:j + 1])
+            i = j + 1
+        elif c.isspace():
+            i += 1
+        else:
+            out.append(c)
+            i += 1
+    return "".join(out)
+
+
+# The statement order the threaded model (`writeLoopW` + the `…StepCalls` functions, `declCalls`, `doctypeCalls`,
+# `serializeXmlWriteW`, `serializeHtmlWriteNW`) transcribes: which `write_all` happens where, each one `?`-propagated.
+SERIALIZE_NODE_SHAPE = ('letdata=self.render_output(node,&output)?;ifdata.space{w.write_all(b"%s")?;}'
+                        'w.write_all(data.text.as_bytes())?;Ok(())')
+SERIALIZE_SHAPE = "for(node,output)inoutputs{self.serialize_node(w,node,output)?;}Ok(())"
+SERIALIZE_PRETTY_LOOP = ('for(node,output)inoutputs{let(indentation,newline)=pretty.prettify(node,&output);'
+                         'ifindentation>0{w.write_all("%s".repeat(indentation*%d).as_bytes())?;}'
+                         'self.serialize_node(w,node,output)?;ifnewline{w.write_all(b"%s")?;}}Ok(())')
+
+
+def check_serializer_write_shapes(src, what, space_lit, indent_lit, width, newline_lit):
+    """`serialize`, `serialize_pretty`, `serialize_node` of one serialiser: the exact order of the
+    `write_all` calls and of the `render_output` call between them."""
+    for fn in ("serialize", "serialize_pretty", "serialize_node"):
+        checked_write_calls(fn_body(src, fn, what), f"{what}::{fn}")
+    got = squeeze_ws(fn_body(src, "serialize_node", what))
+    want = SERIALIZE_NODE_SHAPE % space_lit
+    if got != want:
+        raise ExtractError(f"{what}::serialize_node: body is `{got}`, expected `{want}` (render first, then the token space, then the token text)")
+    got = squeeze_ws(fn_body(src, "serialize", what))
+    if got != SERIALIZE_SHAPE:
+        raise ExtractError(f"{what}::serialize: body is `{got}`, expected `{SERIALIZE_SHAPE}`")
+    got = squeeze_ws(fn_body(src, "serialize_pretty", what))
+    want = SERIALIZE_PRETTY_LOOP % (indent_lit, width, newline_lit)
+    if not got.endswith(want):
+        raise ExtractError(f"{what}::serialize_pretty: the loop is not `{want}` (indentation, serialize_node, newline; found `{got[-len(want):]}`)")
+
+
 def extract_xml_render(defs, consts):
     """String literals of XmlSerializer::render_output / serialize_pretty (output/xml_serializer.rs)
     and of the declaration / doctype writers (output/xml.rs).  A `format!` literal becomes the
@@ -445,6 +539,8 @@ def extract_xml_render(defs, consts):
         raise ExtractError("serialize_node: expected one `write_all(b\"…\")` literal (the token space)")
     defs.append(f"def tokenSpace : List Char := {lean_str(unescape(sp[0]))}\n")
     consts["tokenSpace"] = unescape(sp[0])
+    # every write of the three loops hands the writer's error on with `?`, in the order the model threads them
+    check_serializer_write_shapes(src, "XmlSerializer", sp[0], m.group(1), int(m.group(2)), nl[0])
     # output/pretty.rs element_space: the xml:space keywords
     psrc = strip_comments(read("src/output/pretty.rs"))
     body = fn_body(psrc, "element_space", "spaceKeywords")
@@ -474,6 +570,33 @@ def extract_xml_render(defs, consts):
         defs.append(f"def {n} : List Char := {lean_str(v)}\n")
     consts["xmlDeclaration"] = wl[0]
     consts["doctype"] = wl[1]
+    # the `write_all` calls of the two writers, one per piece, in this order (model: `Declaration.calls`,
+    # `DocType.calls`), each `?`-propagated
+    lit = lambda a: re.sub(r'b"((?:\\.|[^"\\])*)"', "L", a)
+    dcalls = [lit(a) for a in checked_write_calls(bodies[0], "Declaration::serialize")]
+    want = ["L", "L", "encoding.as_bytes()", "L", "L", "ifstandalone{L}else{L}", "L", "L"]
+    if dcalls != want:
+        raise ExtractError(f"Declaration::serialize: write_all calls are {dcalls}, expected {want}")
+    tcalls = [lit(a) for a in checked_write_calls(bodies[1], "DocType::serialize")]
+    want = ["L", "name.as_bytes()", "L", "public.as_bytes()", "L", "system.as_bytes()", "L", "L", "system.as_bytes()", "L", "L"]
+    if tcalls != want:
+        raise ExtractError(f"DocType::serialize: write_all calls are {tcalls}, expected {want}")
+    # serialize.rs: declaration, then the doctype block (which can fail before it writes), then the body
+    zsrc = strip_comments(read("src/serialize.rs"))
+    body = squeeze_ws(fn_body(zsrc, "serialize_xml_write_with_normalizer", "xml write entry point"))
+    if "write_all(" in body:
+        raise ExtractError("serialize_xml_write_with_normalizer: writes directly (`write_all`), expected only declaration.serialize / doctype.serialize / serializer.serialize(_pretty)")
+    order = ["ifletSome(declaration)=parameters.declaration{declaration.serialize(w)?;}",
+             "ifletSome(doctype)=parameters.doctype{",
+             "letname=fullname_serializer.element_fullname(self.get_element_name(node))?;doctype.serialize(name.as_ref(),w)?;}",
+             "letoutputs=gen_outputs(self,node);",
+             "ifletSome(indentation)=parameters.indentation{serializer.serialize_pretty(w,outputs,&indentation.suppress)?;}else{serializer.serialize(w,outputs)?;}Ok(())"]
+    at = 0
+    for piece in order:
+        k = body.find(piece, at)
+        if k < 0:
+            raise ExtractError(f"serialize_xml_write_with_normalizer: `{piece}` not found (in this order: declaration, doctype, body; every step `?`-propagated)")
+        at = k + len(piece)
 
 
 def extract_unpretty(defs, consts):
@@ -636,17 +759,24 @@ def extract_html5(defs, consts):
         raise ExtractError("Html5Serializer::serialize_node: expected one `write_all(b\"…\")` literal (the token space)")
     defs.append(f"def htmlTokenSpace : List Char := {lean_str(unescape(sp[0]))}\n")
     consts["htmlTokenSpace"] = unescape(sp[0])
+    check_serializer_write_shapes(ssrc, "Html5Serializer", sp[0], m.group(1), int(m.group(2)), nl[0])
     # the doctype: first thing `Html5::serialize_write_with_normalizer` writes
     xsrc = strip_comments(read("src/serialize.rs"))
     mi = re.search(r"\bimpl\s*<'a>\s*Html5\s*<'a>\s*\{", xsrc)
     if not mi:
         raise ExtractError("htmlDoctype: `impl<'a> Html5<'a> {` not found in src/serialize.rs")
     body = fn_body(xsrc[mi.start():], "serialize_write_with_normalizer", "htmlDoctype")
-    m = re.match(r'\s*w\.write_all\(\s*b"((?:\\.|[^"\\])*)"\s*\)\.unwrap\(\)\s*;', body)
+    # the one direct write of the entry point: `?`-propagated (an `.unwrap()` here is the repaired defect coming back)
+    if len(checked_write_calls(body, "Html5::serialize_write_with_normalizer")) != 1:
+        raise ExtractError("htmlDoctype: `Html5::serialize_write_with_normalizer` does not make exactly one direct `write_all` call (the doctype)")
+    m = re.match(r'\s*w\.write_all\(\s*b"((?:\\.|[^"\\])*)"\s*\)\s*\?\s*;', body)
     if not m:
-        raise ExtractError("htmlDoctype: `Html5::serialize_write_with_normalizer` does not start with `w.write_all(b\"…\").unwrap();`")
-    if len(re.findall(r'write_all\(', body)) != 1:
-        raise ExtractError("htmlDoctype: `Html5::serialize_write_with_normalizer` writes more than the doctype itself")
+        raise ExtractError("htmlDoctype: `Html5::serialize_write_with_normalizer` does not start with `w.write_all(b\"…\")?;`")
+    rest = squeeze_ws(body[m.end():])
+    for piece in ("letoutputs=gen_outputs(self.xot,node);",
+                  "ifletSome(indentation)=parameters.indentation{serializer.serialize_pretty(w,outputs,&indentation.suppress)?;}else{serializer.serialize(w,outputs)?;}Ok(())"):
+        if piece not in rest:
+            raise ExtractError(f"Html5::serialize_write_with_normalizer: `{piece}` not found after the doctype write")
     defs.append(f"/-- The bytes `Html5::serialize_write_with_normalizer` writes first (src/serialize.rs). -/\ndef htmlDoctype : List Char := {lean_str(unescape(m.group(1)))}\n")
     consts["htmlDoctype"] = unescape(m.group(1))
 
